@@ -186,6 +186,23 @@ class Acceptor:
     must_end = False
 
 
+_TURN_POSTS = {}      # id(EventManager) -> [number of player_turn_will_start posts] (EventManager has __slots__: the spy sits on the class)
+
+
+def _install_post_spy():
+    from mpf.core.events import EventManager
+    if getattr(EventManager._post, "_c06_spy", False):      # pylint: disable=protected-access
+        return
+    orig = EventManager._post       # pylint: disable=protected-access
+
+    def _post(self, event, ev_type, callback, **kwargs):
+        if event == "player_turn_will_start" and id(self) in _TURN_POSTS:
+            _TURN_POSTS[id(self)][0] += 1
+        return orig(self, event, ev_type, callback, **kwargs)
+    _post._c06_spy = True
+    EventManager._post = _post      # pylint: disable=protected-access
+
+
 def check(case):
     vio = []
     classes = set()
@@ -281,9 +298,18 @@ def check(case):
         def request_end():
             # a turn whose player_turn_will_start is already queued was decided before this request: the acceptor must not
             # count it as "started after the end request" (handlers see the event later than the game posted it)
-            acc.turn_in_flight = any(e[0] == "player_turn_will_start" for e in list(m.events.event_queue))
+            acc.turn_in_flight = any(e[0] == "player_turn_will_start" for e in list(m.events.event_queue)) or \
+                turns_posted[0] > turns_seen[0]
             acc.end_requested = True
             ball_must_end()
+
+        # a request made through the end_game event reaches the game when that event is delivered, not when it is posted:
+        # a turn the game posted in between (its task ran first) was decided before the request
+        turns_posted, turns_seen = [0], [0]
+        _TURN_POSTS[id(ev)] = turns_posted
+        _install_post_spy()
+        ev.add_handler("player_turn_will_start", lambda **kwargs: turns_seen.__setitem__(0, turns_seen[0] + 1), priority=100000)
+        ev.add_handler("end_game", lambda **kwargs: request_end() if m.game is not None else None, priority=100000)
 
         def expand(ops):
             for o in ops:
@@ -340,8 +366,7 @@ def check(case):
                         rig.run_ready()
                 elif k == "end_game":
                     if g is not None:
-                        request_end()
-                        ev.post("end_game")
+                        ev.post("end_game")     # (the acceptor notes the request when the event is delivered)
                         rig.run_ready()
                 elif k == "slam_tilt":
                     # a tilt concerns the ball in progress; before the first ball of a turn it is outside the domain
